@@ -80,6 +80,35 @@ def quartet_case(run, specs, kind="general", tag="enumerated"):
                                   "ls": list(ls)}}, "eri")
 
 
+def large_quartet_case(run, rng, full):
+    """the largest quartets of the quantifier, (ff|ff) with 3,3,3,2 primitives (work arrays of > 2^25 elements): the un-normalised
+    block must be the coefficient-weighted sum of the single-primitive blocks of the last shell (each of which is small), and — in
+    the thorough tier — equal the model"""
+    from gbasis.integrals.electron_repulsion import ElectronRepulsionIntegral as E
+    f1 = ShellSpec(3, [0.0, 0.0, 0.0], [3.5, 1.2, 0.45], [[0.3], [0.6], [0.4]])
+    f2 = ShellSpec(3, [0.4, -0.3, 0.9], [2.5, 0.9], [[0.5], [0.7]])
+    specs = [f1, f1.copy(center=[0.1, 0.7, -0.2]), f1.copy(center=[-0.5, 0.2, 0.3]), f2]
+    rep = {"case": "large-quartet", "basis": core.describe_basis(specs)}
+    run.case(("large-quartet",) + sig(specs))
+    run.count("large work array (ff|ff), 54 primitive quartets")
+    sh = [s.make() for s in specs]
+    whole = E.construct_array_contraction(*sh)
+    parts = 0.0
+    for k, e in enumerate(f2.exps):
+        prim = f2.copy(exps=[e], coeffs=[[1.0]]).make()
+        parts = parts + f2.coeffs[k, 0] * E.construct_array_contraction(sh[0], sh[1], sh[2], prim)
+    sc = float(np.abs(parts).max())
+    ok = True
+    if whole.shape != parts.shape or np.abs(whole - parts).max() > 1e-9 * sc:
+        run.violation("electron-repulsion block of a large quartet (ff|ff, 3/3/3/2 primitives) is not the coefficient-weighted sum of the "
+                      f"blocks of the primitives of its last shell (max deviation {np.abs(whole - parts).max():.3e} of {sc:.3e})",
+                      dict(rep, signature={"kind": "eri-large"}))
+        ok = False
+    if full:
+        ok = quartet_case(run, specs, "general", "large (ff|ff)") and ok
+    return ok
+
+
 def basis_case(run, specs, notation, transform=None):
     from gbasis.integrals.electron_repulsion import electron_repulsion_integral
 
@@ -135,6 +164,11 @@ def check(run):
         if quick and (specs[0].exps[0] in (1e2, 1e4) or specs[2].exps[0] in (1e2, 1e4)):
             continue
         quartet_case(run, specs, "general", "ill-conditioned " + tag)
+    # a tight core shell, a diffuse shell and moderate shells in every arrangement of the four slots
+    from checks.common import mixed_tight_diffuse_quartets
+    for tag, specs in mixed_tight_diffuse_quartets(full=not quick)[:: (2 if quick else 1)]:
+        quartet_case(run, specs, "general", "tight/diffuse/moderate " + tag)
+    large_quartet_case(run, rng, full=not quick)
     # nearly coincident centres within the bra and between bra and ket
     from checks.common import NEAR_LADDER
     for n, ls in enumerate([(0, 1, 0, 0), (1, 1, 0, 1), (0, 2, 1, 0), (1, 0, 1, 0)] + ([] if quick else [(2, 1, 1, 1), (1, 2, 2, 0), (0, 0, 0, 1), (2, 2, 0, 0)])):
@@ -173,7 +207,9 @@ def check(run):
 
 def replay(run, rep):
     n0 = len(run.violations)
-    if rep.get("case") == "quartet":
+    if rep.get("case") == "large-quartet":
+        large_quartet_case(run, run.rng, False)
+    elif rep.get("case") == "quartet":
         quartet_case(run, specs_from(rep), rep.get("kind", "general"))
     else:
         t = rep.get("transform")
